@@ -127,6 +127,8 @@ inductive Instr where
   | copy (k : Nat) (body : List Instr)
   | copyAttr (k : Nat) (name : QN)      -- copy-of / for-each+copy of the attribute `name` of source element `k`
   | useSets (ks : List Nat)             -- `use-attribute-sets` of the enclosing xsl:element / xsl:copy (first child)
+  | call (k : Nat) (body : List Instr)  -- `xsl:call-template name="t<k>"`: the named template of imported module `k`
+                                        -- (its body is carried along so that `exec` stays structurally recursive)
 deriving Repr, Inhabited
 
 mutual
@@ -153,6 +155,7 @@ structure Env where
   sets : List (List SetAttr) := []          -- the stylesheet's attribute sets, by index
   topStack : List (List NS) := []           -- namespaces stack / parent handler of an xsl:attribute inside a
   topParent : Handler := {}                 -- top-level xsl:attribute-set
+  modules : List (List (List NS) × Handler) := []   -- per imported module: namespaces stack and handler of its template
 
 structure Run where
   st : St
@@ -219,6 +222,10 @@ def exec (env : Env) (r : Run) : Instr → Run
       let r := execList env' r false body
       { r with st := r.st.endElement n }
   | .useSets ks => execSets env r ks
+  | .call k body =>
+    match env.modules[k]? with
+    | some (stk, th) => execList { env with stack := stk, parent := th } r false body
+    | none => { r with bad := true }
   | .lre name nsdecls atts excl use body =>
     let stack' := nsdecls :: env.stack
     match (Handler.ctor stack').excludeTokens stack' excl with
@@ -269,6 +276,62 @@ def execList (env : Env) (r : Run) (skipAttrs : Bool) : List Instr → Run
   | i :: is => execList env (exec env r i) skipAttrs is
 end
 
+/-! ### the import tree and `xsl:namespace-alias` across it -/
+
+abbrev Table := List (String × String)      -- stylesheet namespace URI ↦ result namespace URI
+
+/-- `NamespacesHandler::overrideNamespaceAliases`: `m_namespaceAliases[key] = value` for every alias of the source -/
+def tblOverride (dst src : Table) : Table := src.foldl (fun t a => setAlias t a.1 a.2) dst
+
+/-- `NamespacesHandler::copyNamespaceAliases`: `insert`, which never replaces an alias -/
+def tblCopy (dst src : Table) : Table :=
+  if src.isEmpty then dst
+  else if dst.isEmpty then src
+  else src.foldl (fun e a => if e.any (fun b => b.1 = a.1) then e else e ++ [a]) dst
+
+/-- one stylesheet module of the import tree, flattened in document (pre-)order: index 0 is the main module, module
+`i > 0` is imported by module `parent < i`; siblings are in import order -/
+structure Module where
+  parent : Nat
+  decls : List NS
+  excl : List String
+  aliases : List (String × String)        -- (stylesheet-prefix, result-prefix), `""` = #default
+
+def importsOf (mods : List Module) (m : Nat) : List Nat :=
+  (List.range mods.length).filter (fun i => decide (m < i) && (mods.getD i ⟨0, [], [], []⟩).parent == m)
+
+/-- `Stylesheet::collectNamespaceAliases` (`C14-namespace-alias-collect-import-tree.diff`): imports from the last `xsl:import`
+(highest import precedence) to the first, each collected first, then copied without replacing -/
+def collectAliases (mods : List Module) : Nat → Nat → List Table → List Table
+  | 0, _, t => t
+  | f + 1, m, t =>
+    (importsOf mods m).reverse.foldl (fun t c =>
+      let t := collectAliases mods f c t
+      t.set m (tblCopy (t.getD m []) (t.getD c []))) t
+
+/-- the alias part of `Stylesheet::postConstruction`: (collect,) then for every import in document order: push this
+module's table down (assignment), post-construct the import, copy its table back (insert).  `t[m]` at the end is the table
+the literal result elements of module `m` are processed with. -/
+def postAliases (mods : List Module) (collectFirst : Bool) : Nat → Nat → List Table → List Table
+  | 0, _, t => t
+  | f + 1, m, t =>
+    let t := if collectFirst then collectAliases mods (f + 1) m t else t
+    -- `m_imports` holds the last import first (`addImport` inserts at the front) and the loop runs over it backwards:
+    -- the imports are post-constructed from the first `xsl:import` to the last
+    (importsOf mods m).foldl (fun t c =>
+      let t := t.set c (tblOverride (t.getD c []) (t.getD m []))
+      let t := postAliases mods collectFirst f c t
+      t.set m (tblCopy (t.getD m []) (t.getD c []))) t
+
+/-- import precedence, highest first: a module before the modules it imports, a later import before an earlier one -/
+def precedenceOrder (mods : List Module) : Nat → Nat → List Nat
+  | 0, _ => []
+  | f + 1, m => m :: ((importsOf mods m).reverse.map (precedenceOrder mods f)).flatten
+
+/-- XSLT 1.0 §7.1.1: the alias for stylesheet namespace `u` is the declaration with the highest import precedence -/
+def specAlias (own : List Table) (order : List Nat) (u : String) : Option String :=
+  order.findSome? (fun m => ((own.getD m []).find? (fun a => a.1 = u)).map (·.2))
+
 /-- `Stylesheet::processNSAliasElement` for each `xsl:namespace-alias` (prefix pairs, `""` = `#default`);
 `none` = a prefix is not declared on xsl:stylesheet (compile error) -/
 def resolveAliases (rootDecls : List NS) : List (String × String) → Option (List (String × String))
@@ -278,20 +341,46 @@ def resolveAliases (rootDecls : List NS) : List (String × String) → Option (L
     | some su, some ru, some tail => some ((su, ru) :: tail)
     | _, _, _ => none
 
-/-- a whole generated stylesheet: `<xsl:stylesheet rootDecls exclude-result-prefixes=rootExcl>
-<xsl:template match="/"> body </xsl:template></xsl:stylesheet>` applied to `src` -/
-def runCase (v : Variant) (rootDecls : List NS) (rootExcl : List String) (aliasPrefixes : List (String × String))
-    (sets : List (List SetAttr)) (src : Src) (body : List Instr) : Run :=
-  match ({} : Handler).excludeTokens [rootDecls] rootExcl, resolveAliases rootDecls aliasPrefixes with
-  | none, _ => { st := { v := v }, bad := true }
-  | _, none => { st := { v := v }, bad := true }
-  | some sh00, some al =>
-    let sh0 : Handler := { sh00 with aliases := al.foldl (fun m a => setAlias m a.1 a.2) [], ownFirst := v.handlerOwnFirst }
+/-- stylesheet handler, namespaces stack and template handler of one module, given its final alias table -/
+def moduleEnv (v : Variant) (m : Module) (aliases : Table) : Option (List (List NS) × Handler) :=
+  match ({} : Handler).excludeTokens [m.decls] m.excl with
+  | none => none
+  | some sh00 =>
+    let sh0 : Handler := { sh00 with aliases := aliases, ownFirst := v.handlerOwnFirst }
     let sh := sh0.postConstruct none "" []
-    let stack := [[], rootDecls]
-    let th := (Handler.ctor stack).postConstruct (some sh) "xsl" []
-    let env : Env := { stack := stack, parent := th, nodes := Src.index [] src, sets := sets,
-                       topStack := stack, topParent := th }
-    execList env { st := { v := v } } false body
+    let stack := [[], m.decls]
+    some (stack, (Handler.ctor stack).postConstruct (some sh) "xsl" [])
+
+/-- own alias tables of all modules (`none`: an alias names an undeclared prefix) -/
+def ownTables : List Module → Option (List Table)
+  | [] => some []
+  | m :: ms =>
+    match resolveAliases m.decls m.aliases, ownTables ms with
+    | some al, some rest => some (al.foldl (fun t a => setAlias t a.1 a.2) [] :: rest)
+    | _, _ => none
+
+def moduleEnvs (v : Variant) : List Module → List Table → Option (List (List (List NS) × Handler))
+  | [], _ => some []
+  | m :: ms, ts =>
+    match moduleEnv v m (ts.headD []), moduleEnvs v ms ts.tail with
+    | some e, some es => some (e :: es)
+    | _, _ => none
+
+/-- a whole generated stylesheet: main module `mods[0]` (`<xsl:stylesheet …><xsl:import …/>* … <xsl:template match="/"> body
+</xsl:template></xsl:stylesheet>`) with its import tree, applied to `src` -/
+def runCase (v : Variant) (mods : List Module) (sets : List (List SetAttr)) (src : Src) (body : List Instr) : Run :=
+  match ownTables mods with
+  | none => { st := { v := v }, bad := true }
+  | some own =>
+    let final := postAliases mods v.aliasCollectFirst (mods.length + 1) 0 own
+    match moduleEnvs v mods final with
+    | none => { st := { v := v }, bad := true }
+    | some envs =>
+      match envs with
+      | [] => { st := { v := v }, bad := true }
+      | (stack, th) :: _ =>
+        let env : Env := { stack := stack, parent := th, nodes := Src.index [] src, sets := sets,
+                           topStack := stack, topParent := th, modules := envs }
+        execList env { st := { v := v } } false body
 
 end XalanModel.C14
